@@ -13,6 +13,7 @@ import (
 	"io/fs"
 	"os"
 	"path/filepath"
+	"sort"
 	"strconv"
 	"strings"
 	"time"
@@ -104,15 +105,138 @@ func nestedProg(innerFormat, jq string) string {
 	return p[:i] + "\n" + jq + " | " + p[i+1:]
 }
 
-func nstCase(o *hlib.Out, path string, outer []byte, innerFormat string, inner []byte, truth string) {
-	outerFormat, jq, ok := jqPath(path)
-	obs := "badpath"
-	if ok && projections[innerFormat] != "" {
-		res := decodeBatchProg(outerFormat, nestedProg(innerFormat, jq), map[string][]byte{"f": outer})
-		obs = post(innerFormat, res["f"])
+type nstItem struct {
+	path        string
+	outer       []byte
+	innerFormat string
+	inner       []byte
+	truth       string
+}
+
+// nstFlush decodes the items (one interpreter per group with the same outer format / path / inner format) and
+// writes their case lines in order.
+func nstFlush(o *hlib.Out, items []nstItem) {
+	type key struct{ path, inner string }
+	groups := map[key][]int{}
+	var order []key
+	for i, it := range items {
+		k := key{it.path, it.innerFormat}
+		if _, ok := groups[k]; !ok {
+			order = append(order, k)
+		}
+		groups[k] = append(groups[k], i)
 	}
-	o.Case(fmt.Sprintf("nst %s %s %s %s %s", path, hlib.Hex(outer), innerFormat, hlib.Hex(inner), truth), obs)
-	o.Stat("nst_"+innerFormat, 1)
+	obs := make([]string, len(items))
+	for _, k := range order {
+		outerFormat, jq, ok := jqPath(k.path)
+		if !ok || projections[k.inner] == "" {
+			for _, i := range groups[k] {
+				obs[i] = "badpath"
+			}
+			continue
+		}
+		files := map[string][]byte{}
+		for _, i := range groups[k] {
+			files[fmt.Sprintf("n%05d", i)] = items[i].outer
+		}
+		res := decodeBatchProg(outerFormat, nestedProg(k.inner, jq), files)
+		for _, i := range groups[k] {
+			obs[i] = post(k.inner, res[fmt.Sprintf("n%05d", i)])
+		}
+	}
+	for i, it := range items {
+		o.Case(fmt.Sprintf("nst %s %s %s %s %s", it.path, hlib.Hex(it.outer), it.innerFormat, hlib.Hex(it.inner), it.truth), obs[i])
+		o.Stat("nst_"+it.innerFormat, 1)
+	}
+}
+
+func nstCase(o *hlib.Out, path string, outer []byte, innerFormat string, inner []byte, truth string) {
+	nstFlush(o, []nstItem{{path, outer, innerFormat, inner, truth}})
+}
+
+// gzipMembers: the payload cut at the given offsets, every piece its own gzip member (FLG = 0), concatenated
+// (`cat a.gz b.gz`): fq exposes the concatenation as the root `uncompressed` through a MultiReader and probes it.
+func gzipMembers(r *hlib.Rand, payload []byte, cuts []int) []byte {
+	var out bytes.Buffer
+	prev := 0
+	for _, c := range append(append([]int{}, cuts...), len(payload)) {
+		w, _ := gzip.NewWriterLevel(&out, []int{-1, 0, 1, 9}[r.Intn(4)])
+		w.Write(payload[prev:c])
+		w.Close()
+		prev = c
+	}
+	return out.Bytes()
+}
+
+// boundaries of the fixed fields of a tar header block (name, mode, uid, gid, size, mtime, chksum, typeflag,
+// linkname, magic, version, uname, gname, devmajor, devminor, prefix, padding)
+var tarFieldEnds = []int{100, 108, 116, 124, 136, 148, 156, 157, 257, 263, 265, 297, 329, 337, 345, 500, 512}
+
+// multiGzipCases: an inner container split over 2..4 gzip members, cut inside and at the edges of its header
+// fields, so that single field reads of the inner decode straddle a member boundary.
+func multiGzipCases(o *hlib.Out, r *hlib.Rand, pool map[string][]*fcase, step int, perFormat int) {
+	var items []nstItem
+	for _, f := range []string{"tar", "zip", "png", "gif", "wav"} {
+		var small []*fcase
+		for _, c := range pool[f] {
+			if len(c.file) >= 64 && len(c.file) <= 3200 {
+				small = append(small, c)
+			}
+		}
+		for j := 0; j < perFormat && j < len(small); j++ {
+			c := small[(j*5+r.Intn(2))%len(small)]
+			n := len(c.file)
+			truth := strings.Join(c.truth, " ")
+			cutSet := map[int]bool{}
+			for x := 1; x < n && x <= 64; x += step { // the leading header
+				cutSet[x] = true
+			}
+			for x := n - 64; x < n; x += step { // the trailing records (zip end record, IEND, gif trailer)
+				if x > 0 {
+					cutSet[x] = true
+				}
+			}
+			if f == "tar" {
+				for _, e := range tarFieldEnds {
+					for _, x := range []int{e - 1, e, e + 1, e - 3} {
+						if x > 0 && x < n {
+							cutSet[x] = true
+						}
+					}
+				}
+				for x := 3; x < 512 && x < n; x += 4 * step { // inside every field
+					cutSet[x] = true
+				}
+			}
+			for k := 0; k < 6; k++ {
+				cutSet[r.Range(1, n-1)] = true
+			}
+			var cuts []int
+			for x := range cutSet {
+				cuts = append(cuts, x)
+			}
+			sort.Ints(cuts)
+			for _, x := range cuts {
+				items = append(items, nstItem{"gzip", gzipMembers(r, c.file, []int{x}), f, c.file, truth})
+			}
+			for k := 0; k < 4; k++ { // three and four members
+				m := r.Range(2, 3)
+				cs := map[int]bool{}
+				for len(cs) < m {
+					cs[r.Range(1, n-1)] = true
+				}
+				var cl []int
+				for x := range cs {
+					cl = append(cl, x)
+				}
+				sort.Ints(cl)
+				items = append(items, nstItem{"gzip", gzipMembers(r, c.file, cl), f, c.file, truth})
+			}
+			o.Class(fmt.Sprintf("nstm.%s.%s.%d", f, c.class, len(cuts)))
+		}
+	}
+	nstFlush(o, items)
+	o.Stat("nst_multi_member_gzip", len(items))
 }
 
 // nestedCases: small files of every probe-able format as members of tar and zip (stored and deflated), inside gzip,
